@@ -13,6 +13,8 @@ out = {}
 out["version_info"] = list(sys.version_info)
 out["implementation"] = sys.implementation.name
 out["opmap"] = dict(dis.opmap)
+# pseudo-instructions (3.12+: SETUP_WITH etc. with numbers >= 256) are in dis.opmap but never occur in co_code
+out["real_opnames"] = sorted(n for n, c in dis.opmap.items() if c < 256)
 out["hasjrel"] = sorted(dis.opname[i] for i in dis.hasjrel)
 out["hasjabs"] = sorted(dis.opname[i] for i in dis.hasjabs)
 ice = getattr(opcode, "_inline_cache_entries", None)
